@@ -536,6 +536,11 @@ pub fn run_c18(a: &WorkerArgs) -> WorkerReport {
 pub fn replay_special(prop: u8, text: &str) -> Result<Option<Failure>, String> {
     let mut st = Stats::default();
     let v = match prop {
+        #[cfg(feature = "std")]
+        12 => {
+            let c: StrCase = serde_json::from_str(text).map_err(|e| format!("cannot parse case: {}", e))?;
+            str_verdict(&c, &mut st)
+        }
         14 => {
             let c: EqCase = serde_json::from_str(text).map_err(|e| format!("cannot parse case: {}", e))?;
             eq_verdict(&c, &mut st)
@@ -633,4 +638,185 @@ pub fn zst_battery() -> Option<Failure> {
     run!(PriorityQueue<U, U>, "PriorityQueue<UnitStruct,UnitStruct>", U, "[null,null]");
     run!(DoublePriorityQueue<U, U>, "DoublePriorityQueue<UnitStruct,UnitStruct>", U, "[null,null]");
     None
+}
+
+// ---------------------------------------------------------------------------------------------
+// C12: `String` items looked up through `&str` (the borrowed form named in the property)
+
+#[derive(Clone, Debug, Serialize, Deserialize, PartialEq, Eq, Hash)]
+pub enum SOp {
+    Push(u8, i64),
+    PushInc(u8, i64),
+    PushDec(u8, i64),
+    Change(u8, i64),
+    ChangeBy(u8, i64),
+    Remove(u8),
+    Get(u8),
+    Pop,
+    PopMin,
+}
+#[derive(Clone, Debug, Serialize, Deserialize, PartialEq, Eq, Hash)]
+pub struct StrCase {
+    pub double: bool,
+    pub ops: Vec<SOp>,
+}
+const STRS: [&str; 10] = ["", "a", "b", "ab", "ba", "\u{e9}", "a\0", "A", "a ", "the quick brown fox jumps over the lazy dog"];
+
+pub fn str_case_strategy() -> BoxedStrategy<StrCase> {
+    let k = 0u8..10;
+    let p = -4i64..5;
+    let op = prop_oneof![
+        4 => (k.clone(), p.clone()).prop_map(|(k, p)| SOp::Push(k, p)),
+        2 => (k.clone(), p.clone()).prop_map(|(k, p)| SOp::PushInc(k, p)),
+        2 => (k.clone(), p.clone()).prop_map(|(k, p)| SOp::PushDec(k, p)),
+        3 => (k.clone(), p.clone()).prop_map(|(k, p)| SOp::Change(k, p)),
+        2 => (k.clone(), p.clone()).prop_map(|(k, p)| SOp::ChangeBy(k, p)),
+        3 => k.clone().prop_map(SOp::Remove),
+        3 => k.clone().prop_map(SOp::Get),
+        2 => Just(SOp::Pop),
+        1 => Just(SOp::PopMin),
+    ];
+    (any::<bool>(), vec(op, 0..40)).prop_map(|(double, ops)| StrCase { double, ops }).boxed()
+}
+
+macro_rules! str_run {
+    ($Q:ty, $c:expr, $pop_max:ident, $pop_min:expr) => {{
+        let c: &StrCase = $c;
+        let mut q: $Q = <$Q>::new();
+        let mut m: std::collections::BTreeMap<String, i64> = Default::default();
+        let fail = |clause: &'static str, d: String| Err(Failure { group: Group::Tag, clause, step: 0, op: "get", detail: d, kind: if c.double { "DPQ" } else { "PQ" } });
+        let mut borrowed_updates = 0;
+        for (i, op) in c.ops.iter().enumerate() {
+            match op {
+                SOp::Push(k, p) => {
+                    let s = STRS[*k as usize];
+                    let got = q.push(s.to_string(), *p);
+                    let want = m.insert(s.to_string(), *p);
+                    if got != want {
+                        return fail("str_push_ret", format!("step {}: push({:?},{}) returned {:?}, model {:?}", i, s, p, got, want));
+                    }
+                }
+                SOp::PushInc(k, p) | SOp::PushDec(k, p) => {
+                    let inc = matches!(op, SOp::PushInc(..));
+                    let s = STRS[*k as usize];
+                    let got = if inc { q.push_increase(s.to_string(), *p) } else { q.push_decrease(s.to_string(), *p) };
+                    let want = match m.get(s).copied() {
+                        None => {
+                            m.insert(s.to_string(), *p);
+                            None
+                        }
+                        Some(o) => {
+                            if (inc && *p > o) || (!inc && *p < o) {
+                                m.insert(s.to_string(), *p);
+                                Some(o)
+                            } else {
+                                Some(*p)
+                            }
+                        }
+                    };
+                    if got != want {
+                        return fail("str_push_dir_ret", format!("step {}: push_increase/decrease({:?},{}) returned {:?}, model {:?}", i, s, p, got, want));
+                    }
+                }
+                SOp::Change(k, p) => {
+                    let s: &str = STRS[*k as usize];
+                    let got = q.change_priority(s, *p);
+                    let want = m.get_mut(s).map(|x| std::mem::replace(x, *p));
+                    if got != want {
+                        return fail("str_change_ret", format!("step {}: change_priority(&str {:?},{}) returned {:?}, model {:?}", i, s, p, got, want));
+                    }
+                    if want.is_some() {
+                        borrowed_updates += 1;
+                    }
+                }
+                SOp::ChangeBy(k, p) => {
+                    let s: &str = STRS[*k as usize];
+                    let got = q.change_priority_by(s, |x| *x = *p);
+                    let want = m.get_mut(s).map(|x| *x = *p).is_some();
+                    if got != want {
+                        return fail("str_change_by_ret", format!("step {}: change_priority_by(&str {:?}) returned {}, model {}", i, s, got, want));
+                    }
+                }
+                SOp::Remove(k) => {
+                    let s: &str = STRS[*k as usize];
+                    let got = q.remove(s);
+                    let want = m.remove(s).map(|p| (s.to_string(), p));
+                    if got != want {
+                        return fail("str_remove_ret", format!("step {}: remove(&str {:?}) returned {:?}, model {:?}", i, s, got, want));
+                    }
+                }
+                SOp::Get(k) => {
+                    let s: &str = STRS[*k as usize];
+                    let owned = s.to_string();
+                    let a = q.get(s).map(|(k, p)| (k as *const String as usize, k.clone(), *p));
+                    let b = q.get(&owned).map(|(k, p)| (k as *const String as usize, k.clone(), *p));
+                    let want = m.get(s).map(|p| (s.to_string(), *p));
+                    if a != b || a.clone().map(|x| (x.1, x.2)) != want || q.get_priority(s).copied() != want.as_ref().map(|w| w.1) {
+                        return fail("str_get", format!("step {}: get(&str {:?}) = {:?}, get(&String) = {:?}, model {:?}", i, s, a, b, want));
+                    }
+                    if let Some((k, _)) = q.get_mut(s) {
+                        if k.as_str() != s {
+                            return fail("str_get_mut", format!("step {}: get_mut(&str {:?}) addressed {:?}", i, s, k));
+                        }
+                    }
+                }
+                SOp::Pop | SOp::PopMin => {
+                    let min = matches!(op, SOp::PopMin);
+                    let got: Option<(String, i64)> = if min { $pop_min(&mut q) } else { q.$pop_max() };
+                    if min && !c.double {
+                        continue;
+                    }
+                    match got {
+                        None => {
+                            if !m.is_empty() {
+                                return fail("str_pop_none", format!("step {}: pop returned None with {} stored", i, m.len()));
+                            }
+                        }
+                        Some((s, p)) => {
+                            let ext = if min { m.values().min().copied() } else { m.values().max().copied() };
+                            if m.get(&s) != Some(&p) || ext != Some(p) {
+                                return fail("str_pop", format!("step {}: pop returned ({:?},{}) model {:?}", i, s, p, m));
+                            }
+                            m.remove(&s);
+                        }
+                    }
+                }
+            }
+            if q.len() != m.len() {
+                return fail("str_len", format!("step {}: len {} model {}", i, q.len(), m.len()));
+            }
+            let mut all: Vec<(String, i64)> = q.iter().map(|(k, p)| (k.clone(), *p)).collect();
+            all.sort();
+            if all != m.iter().map(|(k, p)| (k.clone(), *p)).collect::<Vec<_>>() {
+                return fail("str_content", format!("step {}: content {:?} model {:?}", i, all, m));
+            }
+        }
+        Ok(borrowed_updates >= 1 && c.ops.len() >= 5)
+    }};
+}
+
+#[cfg(feature = "std")]
+pub fn str_verdict(c: &StrCase, _stats: &mut Stats) -> SVerdict {
+    use priority_queue::{DoublePriorityQueue, PriorityQueue};
+    let kind = if c.double { Kind::DPQ } else { Kind::PQ };
+    guarded(kind, || -> Result<bool, Failure> {
+        if c.double {
+            str_run!(DoublePriorityQueue<String, i64>, c, pop_max, |q: &mut DoublePriorityQueue<String, i64>| q.pop_min())
+        } else {
+            str_run!(PriorityQueue<String, i64>, c, pop, |_q: &mut PriorityQueue<String, i64>| None)
+        }
+    })
+}
+
+#[cfg(feature = "std")]
+pub fn run_c12_strings(a: &WorkerArgs) -> WorkerReport {
+    let mut b = a.clone();
+    b.cases = (a.cases / 4).max(1);
+    b.worker = a.worker + 50;
+    run_special(&b, str_case_strategy(), str_verdict, |c: &StrCase| {
+        use std::hash::{Hash, Hasher};
+        let mut h = std::collections::hash_map::DefaultHasher::new();
+        c.hash(&mut h);
+        h.finish()
+    }, |c: &StrCase| c.ops.len())
 }
